@@ -1,5 +1,451 @@
+//! Persistence family (C14): one `Adf` object (ordering, diagram store, root handles) lives through
+//! a random history of diagram operations and semantics computations; at random points it is sent
+//! through `serde_json` + `fix_import`, or through the web service's string DTO +
+//! `Bdd::from(nodes)` + `Adf::from((ordering, bdd, ac))`, and then lives on.  A twin that is never
+//! exported receives the same requests; `~ twin=1` says that both gave the same answer.
+//! Protocol: see `AdfObdd/Drv/Persist.lean`.
+use crate::fam_bdd::{dump_nodes, truth_table};
 use crate::{rng::Rng, Out};
-pub fn gen(_r: &mut Rng, _cases: usize, _size: usize,  _out: &mut Out) {}
+use adf_bdd::adf::Adf;
+use adf_bdd::datatypes::adf::VarContainer;
+use adf_bdd::datatypes::{BddNode, Term, Var};
+use adf_bdd::obdd::Bdd;
+use std::collections::HashMap;
+use std::panic::{catch_unwind, AssertUnwindSafe};
+use std::sync::{Arc, RwLock};
+
+pub fn gen(r: &mut Rng, cases: usize, size: usize, out: &mut Out) {
+    let maxv = if size == 0 { 5 } else { size };
+    for case in 0..cases {
+        let nv = r.range(2.min(maxv), maxv);
+        out.line(&format!("case persist-{case}"));
+        out.line(&format!("pnew {nv}"));
+        let mut len = 2usize;
+        let pick = |r: &mut Rng, len: usize| -> usize {
+            if len > 4 && r.chance(2, 3) {
+                len - 1 - r.usize(4.min(len))
+            } else {
+                r.usize(len)
+            }
+        };
+        let trip = |r: &mut Rng, out: &mut Out| {
+            out.line(if r.bool() { "pjson" } else { "prebuild" });
+        };
+        // a fresh object is a point of its life too
+        if r.chance(1, 6) {
+            trip(r, out);
+        }
+        let mut vs: Vec<usize> = (0..nv).collect();
+        for i in (1..vs.len()).rev() {
+            vs.swap(i, r.usize(i + 1));
+        }
+        for v in vs.iter().take(r.range(1, nv)) {
+            out.line(&format!("pop var {v}"));
+            len += 1;
+        }
+        let phases = r.range(1, 4);
+        let mut have_ac = false;
+        for _ in 0..phases {
+            for _ in 0..r.range(1, 10) {
+                let a = pick(r, len);
+                let b = pick(r, len);
+                match r.below(15) {
+                    0 | 1 => out.line(&format!("pop var {}", r.usize(nv))),
+                    2 | 3 => out.line(&format!("pop not #{a}")),
+                    4 | 5 => out.line(&format!("pop and #{a} #{b}")),
+                    6 | 7 => out.line(&format!("pop or #{a} #{b}")),
+                    8 => out.line(&format!("pop imp #{a} #{b}")),
+                    9 | 10 => out.line(&format!("pop iff #{a} #{b}")),
+                    11 | 12 => out.line(&format!("pop xor #{a} #{b}")),
+                    _ => out.line(&format!("pop restrict #{a} {} {}", r.usize(nv), r.below(2))),
+                }
+                len += 1;
+            }
+            if !have_ac || r.chance(1, 3) {
+                let acs: Vec<String> = (0..nv).map(|_| format!("#{}", pick(r, len))).collect();
+                out.line(&format!("pac {}", acs.join(" ")));
+                have_ac = true;
+            }
+            // computations before the trip warm the memo tables and grow the node table
+            if r.chance(1, 2) {
+                out.line(&format!("psem {}", ["grounded", "complete", "stable"][r.usize(3)]));
+            }
+            trip(r, out);
+            if r.chance(1, 5) {
+                trip(r, out); // twice in a row
+            }
+            // life after the trip: queries, restrictions, semantics
+            for _ in 0..r.range(1, 4) {
+                match r.below(4) {
+                    0 => out.line(&format!("pq #{}", pick(r, len))),
+                    1 => {
+                        out.line(&format!("pop restrict #{} {} {}", pick(r, len), r.usize(nv), r.below(2)));
+                        len += 1;
+                    }
+                    2 => out.line(&format!("psem {}", ["grounded", "complete", "stable"][r.usize(3)])),
+                    _ => {
+                        out.line(&format!("pop xor #{} #{}", pick(r, len), pick(r, len)));
+                        len += 1;
+                    }
+                }
+            }
+        }
+        for a in 0..len {
+            if r.chance(1, 3) {
+                out.line(&format!("pq #{a}"));
+            }
+        }
+        out.line("pfinish");
+    }
+}
+
+struct Obj {
+    adf: Adf,
+    twin: Adf,
+    hist: Vec<Term>,
+    nv: usize,
+    trips: usize,
+    twin_ok: bool,
+}
+
 #[derive(Default)]
-pub struct Exec {}
-impl Exec { pub fn exec(&mut self, _ws: &[&str], _l: &str, _out: &mut Out) -> bool { false } }
+pub struct Exec {
+    o: Option<Obj>,
+}
+
+fn fresh(nv: usize) -> Adf {
+    let names: Vec<String> = (0..nv).map(|i| format!("s{i}")).collect();
+    let mapping: HashMap<String, usize> = names.iter().enumerate().map(|(i, n)| (n.clone(), i)).collect();
+    Adf::from((
+        VarContainer::from_parser(Arc::new(RwLock::new(names)), Arc::new(RwLock::new(mapping))),
+        Bdd::new(),
+        Vec::new(),
+    ))
+}
+
+fn idx(s: &str) -> Option<usize> {
+    s.strip_prefix('#')?.parse().ok()
+}
+
+fn apply_op(bdd: &mut Bdd, hist: &[Term], ws: &[&str]) -> Option<Term> {
+    let h = |s: &str| -> Option<Term> { hist.get(idx(s)?).copied() };
+    Some(match (ws.first().copied()?, ws.len()) {
+        ("var", 2) => bdd.variable(Var(ws[1].parse().ok()?)),
+        ("const", 2) => Bdd::constant(ws[1] == "1"),
+        ("not", 2) => bdd.not(h(ws[1])?),
+        ("and", 3) => bdd.and(h(ws[1])?, h(ws[2])?),
+        ("or", 3) => bdd.or(h(ws[1])?, h(ws[2])?),
+        ("imp", 3) => bdd.imp(h(ws[1])?, h(ws[2])?),
+        ("iff", 3) => bdd.iff(h(ws[1])?, h(ws[2])?),
+        ("xor", 3) => bdd.xor(h(ws[1])?, h(ws[2])?),
+        ("restrict", 4) => bdd.restrict(h(ws[1])?, Var(ws[2].parse().ok()?), ws[3] == "1"),
+        _ => return None,
+    })
+}
+
+/// `serde_json` export, import, documented repair step
+fn trip_json(a: &Adf) -> Adf {
+    let text = serde_json::to_string(a).expect("serialise");
+    let mut r: Adf = serde_json::from_str(&text).expect("deserialise");
+    r.fix_import();
+    r
+}
+
+/// what `server/src/adf.rs` does: `Adf -> SimplifiedAdf` (every number a decimal string), stored
+/// (here: through `serde_json`, the server uses BSON), `SimplifiedAdf -> Adf`
+fn trip_rebuild(a: &Adf) -> Adf {
+    type Dto = (Vec<String>, HashMap<String, String>, Vec<(String, String, String)>, Vec<String>);
+    let dto: Dto = (
+        a.ordering.names().read().unwrap().clone(),
+        a.ordering.mappings().read().unwrap().iter().map(|(k, v)| (k.clone(), v.to_string())).collect(),
+        a.bdd
+            .nodes
+            .iter()
+            .map(|n| (n.var().0.to_string(), n.lo().0.to_string(), n.hi().0.to_string()))
+            .collect(),
+        a.ac.iter().map(|t| t.0.to_string()).collect(),
+    );
+    let stored = serde_json::to_string(&dto).expect("store");
+    let (names, mapping, nodes, ac): Dto = serde_json::from_str(&stored).expect("load");
+    let bdd = Bdd::from(
+        nodes
+            .into_iter()
+            .map(|(v, l, h)| BddNode::new(Var(v.parse().unwrap()), Term(l.parse().unwrap()), Term(h.parse().unwrap())))
+            .collect::<Vec<BddNode>>(),
+    );
+    Adf::from((
+        VarContainer::from_parser(
+            Arc::new(RwLock::new(names)),
+            Arc::new(RwLock::new(mapping.into_iter().map(|(k, v)| (k, v.parse().unwrap())).collect())),
+        ),
+        bdd,
+        ac.into_iter().map(|t| Term(t.parse().unwrap())).collect(),
+    ))
+}
+
+fn show_vecs(vs: &[Vec<Term>]) -> String {
+    if vs.is_empty() {
+        "none".into()
+    } else {
+        vs.iter()
+            .map(|v| format!("[{}]", v.iter().map(|t| t.value().to_string()).collect::<Vec<_>>().join(",")))
+            .collect::<Vec<_>>()
+            .join("|")
+    }
+}
+
+fn sem(a: &mut Adf, what: &str) -> Option<Vec<Vec<Term>>> {
+    Some(match what {
+        "grounded" => vec![a.grounded()],
+        "complete" => a.complete().collect(),
+        "stable" => a.stable().collect(),
+        _ => return None,
+    })
+}
+
+fn query(b: &Bdd, t: Term) -> String {
+    let p = b.paths(t, false);
+    let m = b.models(t, false);
+    let mut deps: Vec<usize> = b.var_dependencies(t).iter().map(|v| v.value()).collect();
+    deps.sort_unstable();
+    format!(
+        "paths {} {} models {} {} depth {} deps [{}]",
+        p.cmodels,
+        p.models,
+        m.cmodels,
+        m.models,
+        b.max_depth(t),
+        deps.iter().map(|v| v.to_string()).collect::<Vec<_>>().join(",")
+    )
+}
+
+/// the bookkeeping of the round-tripped object against the original's, through the public queries
+/// (`var_dependencies`, `paths`, `models`, `max_depth` read `var_deps` / `count_cache` when the
+/// features are on) and through the verification hook for the private tables
+fn same_as_original(orig: &Adf, new: &Adf) -> String {
+    let n = orig.bdd.nodes.len();
+    let nodes = orig.bdd.nodes == new.bdd.nodes;
+    let ac = orig.ac == new.ac;
+    let names = *orig.ordering.names().read().unwrap() == *new.ordering.names().read().unwrap()
+        && *orig.ordering.mappings().read().unwrap() == *new.ordering.mappings().read().unwrap();
+    let per_term = |f: &dyn Fn(&Bdd, Term) -> String| -> bool {
+        new.bdd.nodes.len() == n
+            && (0..n).all(|t| {
+                catch_unwind(AssertUnwindSafe(|| f(&new.bdd, Term(t)) == f(&orig.bdd, Term(t)))).unwrap_or(false)
+            })
+    };
+    let deps = per_term(&|b, t| {
+        let mut d: Vec<usize> = b.var_dependencies(t).iter().map(|v| v.value()).collect();
+        d.sort_unstable();
+        format!("{d:?}")
+    });
+    let cnt = per_term(&|b, t| {
+        let p = b.paths(t, false);
+        let m = b.models(t, false);
+        format!("{} {} {} {} {}", p.cmodels, p.models, m.cmodels, m.models, b.max_depth(t))
+    });
+    #[cfg(adf_obdd_verif)]
+    let (uniq, deps, memo) = {
+        let (ou, _, _, _, od) = orig.bdd.verif_dump_tables();
+        let (nu, ni, nr, _, nd) = new.bdd.verif_dump_tables();
+        // private `var_deps` itself (length and contents), not only what the accessor shows
+        (ou == nu, deps && od == nd, ni.is_empty() && nr.is_empty())
+    };
+    #[cfg(not(adf_obdd_verif))]
+    let (uniq, memo) = (true, true);
+    format!(
+        "nodes={} ac={} names={} uniq={} deps={} cnt={} memo-empty={}",
+        nodes as u8, ac as u8, names as u8, uniq as u8, deps as u8, cnt as u8, memo as u8
+    )
+}
+
+impl Exec {
+    pub fn exec(&mut self, ws: &[&str], l: &str, out: &mut Out) -> bool {
+        match ws[0] {
+            "pnew" if ws.len() == 2 => {
+                let nv = ws[1].parse().unwrap_or(0);
+                self.o = Some(Obj {
+                    adf: fresh(nv),
+                    twin: fresh(nv),
+                    hist: vec![Term::BOT, Term::TOP],
+                    nv,
+                    trips: 0,
+                    twin_ok: true,
+                });
+                out.line(l);
+                true
+            }
+            "pmemocheck" => true, // regenerated by the round trips and `pfinish`
+            "pop" | "pac" | "psem" | "pq" | "pjson" | "prebuild" | "pfinish" => {
+                out.line(l);
+                out.flush();
+                let Some(o) = self.o.as_mut() else {
+                    out.line("= bad-request");
+                    return true;
+                };
+                match ws[0] {
+                    "pop" => {
+                        let r = catch_unwind(AssertUnwindSafe(|| {
+                            let t = apply_op(&mut o.adf.bdd, &o.hist, &ws[1..])?;
+                            let tw = apply_op(&mut o.twin.bdd, &o.hist, &ws[1..])?;
+                            Some((t, tw))
+                        }));
+                        match r {
+                            Ok(Some((t, tw))) => {
+                                o.hist.push(t);
+                                out.line(&format!("= {}", t.value()));
+                                match catch_unwind(AssertUnwindSafe(|| truth_table(&o.adf.bdd, t, o.nv))) {
+                                    Ok(tt) => out.line(&format!("~ {tt}")),
+                                    Err(_) => out.line("~ panic"),
+                                }
+                                o.twin_ok &= t == tw;
+                                out.line(&format!("~ twin={}", (t == tw) as u8));
+                            }
+                            Ok(None) => {
+                                o.hist.push(Term::BOT);
+                                out.line("= bad-request");
+                                out.line("~ bad-request");
+                            }
+                            Err(_) => {
+                                o.hist.push(Term::BOT);
+                                out.line("= panic");
+                                out.line("~ panic");
+                            }
+                        }
+                    }
+                    "pac" => {
+                        let ac: Option<Vec<Term>> = ws[1..].iter().map(|s| o.hist.get(idx(s)?).copied()).collect();
+                        match ac {
+                            Some(ac) => {
+                                o.adf.ac = ac.clone();
+                                o.twin.ac = ac;
+                            }
+                            None => out.line("= bad-request"),
+                        }
+                    }
+                    "psem" if ws.len() == 2 => {
+                        let r = catch_unwind(AssertUnwindSafe(|| Some((sem(&mut o.adf, ws[1])?, sem(&mut o.twin, ws[1])?))));
+                        match r {
+                            Ok(Some((a, b))) => {
+                                out.line(&format!("= {}", show_vecs(&a)));
+                                o.twin_ok &= a == b;
+                                out.line(&format!("~ twin={}", (a == b) as u8));
+                            }
+                            Ok(None) => {
+                                out.line("= bad-request");
+                                out.line("~ bad-request");
+                            }
+                            Err(_) => {
+                                out.line("= panic");
+                                out.line("~ panic");
+                            }
+                        }
+                    }
+                    "pq" if ws.len() == 2 => {
+                        let Some(t) = idx(ws[1]).and_then(|i| o.hist.get(i).copied()) else {
+                            out.line("= bad-request");
+                            out.line("~ bad-request");
+                            return true;
+                        };
+                        match catch_unwind(AssertUnwindSafe(|| (query(&o.adf.bdd, t), query(&o.twin.bdd, t)))) {
+                            Ok((a, b)) => {
+                                out.line(&format!("= {a}"));
+                                // normalised to facts about the Boolean function over nv variables
+                                let bdd = &o.adf.bdd;
+                                let d = bdd.max_depth(t);
+                                if d <= o.nv {
+                                    let m = bdd.models(t, false);
+                                    let p = bdd.paths(t, false);
+                                    let f = 1u128 << (o.nv - d);
+                                    let mut deps: Vec<usize> = bdd.var_dependencies(t).iter().map(|v| v.value()).collect();
+                                    deps.sort_unstable();
+                                    out.line(&format!(
+                                        "~ sat {} {} paths {} {} depth {} deps [{}]",
+                                        m.cmodels as u128 * f,
+                                        m.models as u128 * f,
+                                        p.cmodels,
+                                        p.models,
+                                        d,
+                                        deps.iter().map(|v| v.to_string()).collect::<Vec<_>>().join(",")
+                                    ));
+                                } else {
+                                    out.line(&format!("~ depth-exceeds-variables {d}"));
+                                }
+                                o.twin_ok &= a == b;
+                                out.line(&format!("~ twin={}", (a == b) as u8));
+                            }
+                            Err(_) => {
+                                out.line("= panic");
+                                out.line("~ panic");
+                            }
+                        }
+                    }
+                    "pjson" | "prebuild" => {
+                        let json = ws[0] == "pjson";
+                        let r = catch_unwind(AssertUnwindSafe(|| if json { trip_json(&o.adf) } else { trip_rebuild(&o.adf) }));
+                        match r {
+                            Ok(new) => {
+                                out.line(&format!(
+                                    "= T {} ac {} names {}",
+                                    dump_nodes(&new.bdd),
+                                    new.ac.iter().map(|t| t.value().to_string()).collect::<Vec<_>>().join(","),
+                                    new.ordering.names().read().unwrap().len()
+                                ));
+                                out.line(&format!("~ same-as-original {}", same_as_original(&o.adf, &new)));
+                                o.adf = new;
+                                o.trips += 1;
+                                memocheck(&o.adf.bdd, o.nv, out);
+                            }
+                            Err(_) => {
+                                out.line("= panic");
+                                out.line("~ panic");
+                            }
+                        }
+                    }
+                    "pfinish" => {
+                        let bdd = &o.adf.bdd;
+                        out.line(&format!("= {}", dump_nodes(bdd)));
+                        out.line(&format!(
+                            "~ {}",
+                            o.hist.iter().map(|t| truth_table(bdd, *t, o.nv).to_string()).collect::<Vec<_>>().join(",")
+                        ));
+                        let table = dump_nodes(bdd);
+                        out.line(&format!("wfcheck {table}"));
+                        out.line("~ true");
+                        memocheck(bdd, o.nv, out);
+                        out.line(&format!(
+                            "# case persist nodes={} ops={} trips={} nv={} twin={}",
+                            bdd.nodes.len() - 2,
+                            o.hist.len() - 2,
+                            o.trips,
+                            o.nv,
+                            o.twin_ok as u8
+                        ));
+                    }
+                    _ => out.line("= bad-request"),
+                }
+                true
+            }
+            _ => false,
+        }
+    }
+}
+
+/// every private table of the real object audited against the Boolean functions of its own node
+/// table by the checker of the model driver (unique table exact, memo entries true, counts and
+/// variable lists right)
+#[allow(unused_variables)]
+fn memocheck(bdd: &Bdd, nv: usize, out: &mut Out) {
+    #[cfg(adf_obdd_verif)]
+    {
+        let exc = cfg!(feature = "adhoccounting") && !cfg!(feature = "adhoccountmodels");
+        out.line(&format!(
+            "pmemocheck {} {} {} {}",
+            nv,
+            exc as u8,
+            dump_nodes(bdd),
+            crate::fam_bdd::dump_tables(bdd)
+        ));
+        out.line("~ ok");
+    }
+}
